@@ -160,11 +160,12 @@ def file_tail_class(path):
 class SchedRun:
     """One controlled execution.  Produces a Coq [schedcase] term and Python-side observations."""
 
-    def __init__(self, rpc, rng, nwriters=3, nreaders=1, kills=0.0, tears=0.0, claimers=False, pre_steps=None, pre_tear=False):
+    def __init__(self, rpc, rng, nwriters=3, nreaders=1, kills=0.0, tears=0.0, claimers=False, pre_steps=None, pre_tear=False,
+                 fixed=None, pre_profile=None, strip_newline=False, readers=None):
         self.rpc, self.rng = rpc, rng
         self.kills, self.tears = kills, tears
         h = history.History(rpc, rng)
-        h.profile = {'weights': {'compact': 2, 'malformed': 0}}
+        h.profile = pre_profile or {'weights': {'compact': 2, 'malformed': 0}}
         for _ in range(pre_steps if pre_steps is not None else rng.choice([4, 8, 12])):
             h.do(h.gen_request())
         self.h = h
@@ -172,6 +173,12 @@ class SchedRun:
         if pre_tear:
             with open(self.store.log, 'ab') as f:
                 f.write(rng.choice([b'{"type":"state","ts":"2026-01-01T00:00:00Z","data":{"id":"AB', b'garbage']))
+        if strip_newline:
+            data = open(self.store.log, 'rb').read()
+            if data.endswith(b'\n') and len(data) > 1:
+                with open(self.store.log, 'wb') as f:       # last line complete but unterminated (editor / merge tool / write cut before '\n')
+                    f.write(data[:-1])
+        h.profile = {'weights': {'compact': 2, 'malformed': 0}}
         snap0 = self.decode()
         self.init_events = snap0
         self.init_tail = file_tail_class(self.store.log)
@@ -181,6 +188,10 @@ class SchedRun:
         self.states_seen = [self.snapshot_state()]
         self.procs = []
         reqs = []
+        for fx in (fixed or []):
+            r = self.fixed_request(fx)
+            if r is not None:
+                reqs.append(('w', r))
         for _ in range(nwriters):
             if claimers:
                 r = history.Req(k='claim', id=None, in_epic=None, agent=rng.choice(history.AGENTS))
@@ -191,9 +202,37 @@ class SchedRun:
                         break
             reqs.append(('w', r))
         for _ in range(nreaders):
-            reqs.append((rng.choice(['rdecode', 'rdecode', 'rlist']), None))
+            reqs.append((rng.choice(readers or ['rdecode', 'rdecode', 'rlist']), None))
         rng.shuffle(reqs)
         self.plan = reqs
+
+    def fixed_request(self, name):
+        rng, h = self.rng, self.h
+        tasks = [t for t in h.snap['tasks'] if not t['is_epic']]
+        if name == 'compact':
+            return history.Req(k='compact')
+        if name == 'plan':
+            return history.Req(k='plan', doc={'title': 'P', 'tasks': [{'title': 'p1'}, {'title': 'p2', 'after': ['p1']}]})
+        if name == 'prune':
+            return history.Req(k='prune', yes=True, agent=None)
+        if name == 'claim':
+            return history.Req(k='claim', id=None, in_epic=None, agent=rng.choice(history.AGENTS))
+        if name == 'new':
+            return history.Req(k='new', epic=False, mode='json', fields={'title': 'fresh %d' % rng.randrange(1000)}, agent=None)
+        if name == 'reopen':
+            fin = [t for t in tasks if t['state'] in ('done', 'canceled')]
+            if not fin:
+                return None
+            return history.Req(k='set', epic=False, id=rng.choice(fin)['id'], mode='json', fields={'state': 'todo'}, agent=None)
+        if name in ('seq_ab', 'seq_ba'):
+            if not hasattr(self, 'pair'):
+                free = [t for t in tasks if not t['deps'] and not t['rdeps']]
+                self.pair = rng.sample([t['id'] for t in free], 2) if len(free) >= 2 else None
+            if not self.pair:
+                return None
+            a, b = self.pair
+            return history.Req(k='seq', ids=[a, b] if name == 'seq_ab' else [b, a])
+        raise ValueError(name)
 
     def decode(self):
         resp = self.rpc.call(op='decode', dir=self.store.ergodir)
